@@ -88,7 +88,7 @@ func LoadTree(dir string, overlay map[string][]byte, goarch string) (*Tree, erro
 		}
 		return nil, fmt.Errorf("tree does not type-check (%d packages): %s", len(pkgs), strings.Join(errs, "; "))
 	}
-	prog, _ := ssautil.Packages(pkgs, ssa.BuilderMode(0))
+	prog, _ := ssautil.Packages(pkgs, ssa.InstantiateGenerics)
 	prog.Build()
 	t.Prog = prog
 	t.Fset = prog.Fset
@@ -255,7 +255,14 @@ func (t *Tree) FuncDecl(pkg, recv, name string) *ast.FuncDecl {
 }
 
 func inModule(f *ssa.Function) bool {
-	return f != nil && f.Pkg != nil && strings.HasPrefix(f.Pkg.Pkg.Path(), mod) && len(f.Blocks) > 0
+	if f == nil || len(f.Blocks) == 0 {
+		return false
+	}
+	pk := f.Pkg
+	if pk == nil && f.Origin() != nil {
+		pk = f.Origin().Pkg // an instance of a generic function of the module
+	}
+	return pk != nil && strings.HasPrefix(pk.Pkg.Path(), mod)
 }
 
 func relName(f *ssa.Function) string {
@@ -265,4 +272,15 @@ func relName(f *ssa.Function) string {
 	s := f.String()
 	s = strings.ReplaceAll(s, mod+"/", "")
 	return s
+}
+
+// pkgOf: the package a function belongs to — for an instance of a generic function, the package of the generic.
+func pkgOf(f *ssa.Function) *ssa.Package {
+	if f == nil {
+		return nil
+	}
+	if f.Pkg == nil && f.Origin() != nil {
+		return f.Origin().Pkg
+	}
+	return f.Pkg
 }
